@@ -391,6 +391,18 @@ impl OcflStore for FsOcflStore {
             Some(object_root) => object_root,
             None => {
                 if let Some(root) = object_root {
+                    // Without a storage layout nothing ties the id to a path, so the id may
+                    // already be in use by an object stored somewhere else
+                    match self.scan_for_inventory(&inventory.id) {
+                        Ok(existing) => {
+                            return Err(RocflError::IllegalState(format!(
+                                "Cannot create object {} because it already exists at {}",
+                                inventory.id, existing.object_root
+                            )));
+                        }
+                        Err(RocflError::NotFound(_)) => (),
+                        Err(e) => return Err(e),
+                    }
                     util::trim_slashes(root).to_string()
                 } else {
                     return Err(RocflError::IllegalState(
